@@ -517,3 +517,16 @@ CASES += [
  dict(id='symbol-pair-table-wrong', kind='fire', file=P, patch='bn10-04.diff', old='    ("<=", SymbolicBDDToken::ImpliesInv),', new='    ("<=", SymbolicBDDToken::Implies),', expect={'C03': 'T', 'C08': 'T'}, control=False),
  dict(id='lookahead-inverted', kind='fire', file=P, patch='bn10-01.diff', old='                if !next_is(SymbolicBDDToken::Comma, tokens) {\n                    break;', new='                if next_is(SymbolicBDDToken::Comma, tokens) {\n                    break;', expect={'C08': 'A2'}, control=False),
 ]
+
+CASES += [
+ dict(id='sudoku-ascii-whitespace', kind='fire', file=U, old='.filter(|c| !c.is_whitespace())', new='.filter(|c| !c.is_ascii_whitespace())', expect={'C17': 'whitespace'}),
+ dict(id='sudoku-stdin-first-line', kind='fire', file=U, old='io::stdin().read_to_string(&mut puzzle_input)?;', new='io::stdin().read_line(&mut puzzle_input)?;', expect={'C17': 'input'}),
+ dict(id='tokenizer-lowercases', kind='fire', file=P, old='match identifier.as_str() {', new='match identifier.as_str().to_lowercase().as_str() {', expect={'C01': 'transformed', 'C16': 'transformed'}),
+ dict(id='graph-output-not-truncated', kind='fire', file=G, old='let file = File::create(output_file)?;', new='let file = File::options().write(true).create(true).open(output_file)?;', expect={'C18': 'X8'}),
+ dict(id='graph-output-truncating-options', kind='silent', file=G, old='let file = File::create(output_file)?;', new='let file = File::options().write(true).create(true).truncate(true).open(output_file)?;', checks=['C18']),
+ dict(id='retain-spelling-swapped', kind='fire', file=TT, old='Self::True => matches!(s, "true" | "True" | "t" | "T" | "1"),\n            Self::False => matches!(s, "false" | "False" | "f" | "F" | "0"),', new='Self::True => matches!(s, "true" | "True" | "t" | "T" | "0"),\n            Self::False => matches!(s, "false" | "False" | "f" | "F" | "1"),', expect={'C20': 'T', 'C10': 'T', 'C14': 'T'}),
+ dict(id='strict-count-offset-overflows', kind='fire', file=P, old='n.saturating_add(1)', new='n + 1', expect={'C05': 'Overflow', 'C12': 'Overflow'}),
+ dict(id='varlist-wrong-terminator', kind='fire', file=P, old='''        loop {
+            if check(SymbolicBDDToken::Hash, tokens).is_err() {''', new='''        loop {
+            if check(SymbolicBDDToken::CloseSquare, tokens).is_err() {''', expect={'C04': 'A2', 'C08': 'A2'}),
+]
